@@ -73,10 +73,10 @@ where
         let mut identifiers = Vec::with_capacity(locations.len());
 
         // First activate slots that are already allocated.
-        while let Some(index) = self.free.pop_front() {
-            if locations.is_empty() {
+        while !locations.is_empty() {
+            let Some(index) = self.free.pop_front() else {
                 break;
-            }
+            };
             let slot =
                 // SAFETY: indices within `self.free` are guaranteed to be within the bounds of
                 // `self.slots`.
